@@ -42,7 +42,7 @@ def contains (f : F α) (off : Int) : Bool :=
 
 /-- `Get`: explicit panic outside the bounds; a Go map lookup of a missing key yields nil. -/
 def get (f : F α) (off : Int) : Except Panic (Option α) :=
-  if !contains f off then .error (.explicit "indexing feed out of bounds")
+  if !contains f off then .error (.explicit "indexing feed at %d whereas bounds are %d and %d")
   else .ok (f.feed (f.index + off))
 
 def current (f : F α) : Option α := f.feed f.index
